@@ -614,7 +614,9 @@ func intrinsics() map[string]intrinsic {
 		if dyn == nil {
 			return Agg{st.zero64, st.zero64, st.zero64}
 		}
-		return Agg{st.c.Const(st.w.tokenFor(dyn), 64), iv[1], st.c.Const(uint64(reflectKind(dyn)), 64)}
+		// third word: the address of the value when it is addressable (0: not addressable,
+		// as every result of reflect.ValueOf)
+		return Agg{st.c.Const(st.w.tokenFor(dyn), 64), iv[1], st.zero64}
 	}
 	valType := func(st *State, v Value) types.Type {
 		a := v.(Agg)
